@@ -1,6 +1,7 @@
 """Property -> rule functions."""
-from .rules import safety
+from .rules import safety, codecs
 
 PROPS = {
+    "C15": codecs.ALL,
     "C20": safety.ALL,
 }
